@@ -871,16 +871,16 @@ where
         freq: &FrequencySketch,
         counters: &mut EvictionCounters,
     ) {
-        // This write op is outdated if the map no longer holds the very value it was
-        // created for: the key has been updated again (the newer op does the work),
-        // invalidated, evicted or rejected since it was queued, or two threads queued
-        // their ops in the opposite order of their map updates. Acting on it would
-        // touch whatever entry the map holds for the key *now*, or leave deque nodes
-        // and counters for an entry that the map does not hold.
+        // This write op is outdated if the map no longer holds the incarnation of the
+        // entry it was created for: the key has been invalidated, evicted or rejected
+        // (and possibly inserted again) since it was queued. Acting on it would touch
+        // whatever entry the map holds for the key *now*, or leave deque nodes and
+        // counters for an entry that the map does not hold. (A later update of the
+        // same incarnation shares its EntryInfo, so this op still applies in order.)
         let current_key = self
             .cache
             .get(&kh.key)
-            .filter(|e| TrioArc::ptr_eq(e.value(), &entry))
+            .filter(|e| TrioArc::ptr_eq(e.value().entry_info(), entry.entry_info()))
             .map(|e| Arc::clone(e.key()));
         // Use the key object the map holds, so that the deque nodes do not keep a
         // second copy of the key alive.
